@@ -65,17 +65,22 @@ def tol_pre(rt: Opt, at: Opt):
 
 # ------------------------------------------------------------------------------------------ models
 def approx_model(ex, ctx, args, kw):
-    FE.assumed("pytest.approx", "x == approx(e, rel=r, abs=a)  <=>  |x - e| <= max(r*|e|, a)  for finite reals and r, a >= 0 "
-               "(negative tolerances raise ValueError; nan never equal; inf only to itself)")
+    FE.assumed("pytest.approx", "x == approx(e, rel=r, abs=a)  <=>  |x - e| <= tol  for finite reals, where (pytest's ApproxScalar.tolerance) "
+               "tol = a if r is None and a is given; otherwise max((1e-6 if r is None else r)*|e|, (1e-12 if a is None else a)); "
+               "negative tolerances raise ValueError; nan never equal; inf only to itself")
     e = ex.unopt(args[0], ctx)
-    return [(ctx, Obj("approx", {"expected": ex.znum(e), "rel": ex.znum(ex.unopt(kw["rel"], ctx)), "abs": ex.znum(ex.unopt(kw["abs"], ctx))}))]
+    rel, ab = O(kw.get("rel", NONE)), O(kw.get("abs", NONE))
+    return [(ctx, Obj("approx", {"expected": ex.znum(e), "rel": rel, "abs": ab}))]
 
 
 def eq_model(ex, l, r):
     if isinstance(r, Obj) and r.cls == "approx":
         l = ex.znum(l)
         e, rel, ab = r.fields["expected"], r.fields["rel"], r.fields["abs"]
-        return A(l - e) <= MX(rel * A(e), ab)
+        a_eff = z3.If(ab.is_none, z3.RealVal("1e-12"), ab.val)
+        r_eff = z3.If(rel.is_none, z3.RealVal("1e-6"), rel.val)
+        tol = z3.If(z3.And(rel.is_none, z3.Not(ab.is_none)), a_eff, MX(r_eff * A(e), a_eff))
+        return A(l - e) <= tol
     return None
 
 
@@ -395,7 +400,7 @@ def run(report):
     from ..core import seed as _seed
     try:
         _run(report)
-    except (_GenError, NotImplementedError, KeyError, AttributeError, TypeError) as e:
+    except Exception as e:  # the code left the modelled subset: fault + executable-contract search (a real disagreement is a violation)
         _refimpl.generation_fallback(report, "approx", "C08", f"{type(e).__name__}: {e}", _seed())
 
 
